@@ -229,7 +229,7 @@ def run (ctx):
     if p is not None and (init is None or any(call_name(x) == 'parse' for x in calls_in(init.node))): out.append(p)
     return out
   # ethernet.type_parsers registrations
-  tp = []
+  tp = []; tp_fallback = []
   einit = eth.methods.get('__init__')
   for t, v, st, k in q.stores_in(einit.node):
     if isinstance(t, ast.Subscript) and 'type_parsers' in norm(t.value) and isinstance(v, ast.Name):
@@ -237,7 +237,7 @@ def run (ctx):
       if isinstance(r, Cls): tp.append(r)
     if isinstance(t, ast.Attribute) and t.attr == '_llc' and isinstance(v, ast.Name):
       r = _resolve_local_import(repo, einit, v.id)
-      if isinstance(r, Cls): tp.append(r)
+      if isinstance(r, Cls): tp.append(r); tp_fallback.append(r)
   ctx.floor('ethertype parsers registered', len(set(c.name for c in tp)), 7)
   def resolve_call (f, c):
     """list of Func possibly invoked by call c inside f"""
@@ -599,6 +599,9 @@ def run (ctx):
       Pf = [x for x in P if x[0] < hsize]
       n_bf += c14._bitfields(ctx, repo, m, cls, pf, hf, Pf, H, hcall)
   ctx.floor('bit-field composites re-serialisable', n_bf, 4)
+  # ---- output side / accounting (E1-E8) ------------------------------------------------------------------------
+  from . import c15b
+  c15b.run(ctx, repo, mods, tp, tp_fallback)
   # ---- D5 parser loops ----------------------------------------------------------------------------------------
   n_loops = 0
   for qual in local:
